@@ -69,10 +69,66 @@ func (c *Ctx) outcomes(fn *ssa.Function) []outcome {
 			break
 		}
 	}
+	// a guard that is the bool result of a product helper with several outcomes (`if s.matchesGlobally(code) {
+	// return true }`) is replaced by the conditions of each way the helper produces that result: one outcome per way
+	for depth := 0; depth < 3; depth++ {
+		var next []outcome
+		changed := false
+		for _, o := range out {
+			idx := -1
+			var sub []outcome
+			for i, l := range o.Guards {
+				call, k := P.litHelperCall(l)
+				if call == nil || k != 0 {
+					continue
+				}
+				callee := call.Call.StaticCallee()
+				if callee == nil || callee == fn || P.isAnchor(callee) || c.outcomeBusy[callee] {
+					continue
+				}
+				if c.outcomeBusy == nil {
+					c.outcomeBusy = map[*ssa.Function]bool{}
+				}
+				c.outcomeBusy[callee] = true
+				var hs []outcome
+				P.PinnedAll(pinMap{callee: call}, func() { hs = c.outcomes(callee) })
+				delete(c.outcomeBusy, callee)
+				okAll := len(hs) > 0
+				for _, h := range hs {
+					if _, isC := constBool(h.Val); !isC {
+						okAll = false
+					}
+				}
+				if !okAll {
+					continue
+				}
+				for _, h := range hs {
+					if cv, _ := constBool(h.Val); cv == l.Pos {
+						sub = append(sub, h)
+					}
+				}
+				idx = i
+				break
+			}
+			if idx < 0 {
+				next = append(next, o)
+				continue
+			}
+			changed = true
+			rest := append(append([]Lit{}, o.Guards[:idx]...), o.Guards[idx+1:]...)
+			for _, h := range sub {
+				next = append(next, outcome{Val: o.Val, At: o.At, Guards: dedupLits(append(append([]Lit{}, rest...), h.Guards...))})
+			}
+		}
+		out = next
+		if !changed {
+			break
+		}
+	}
 	for i := range out {
 		out[i].Guards = P.Expand(out[i].Guards)
 	}
-	sort.Slice(out, func(i, j int) bool { return out[i].At.Pos() < out[j].At.Pos() })
+	sort.SliceStable(out, func(i, j int) bool { return out[i].At.Pos() < out[j].At.Pos() })
 	return out
 }
 
@@ -106,27 +162,39 @@ func (c *Ctx) ruleIgnoreSetContains() {
 		d := P.Desc(v)
 		return strings.HasPrefix(d, "iterelem0(call(codes.GetCodesForCheck; ") && isParamDesc(P, d, fn, 1)
 	}
-	var nTrueGlobal, nTrueScoped, nReject, nNil, nFinal int
-	// locate the global-phase iterator call (its closure consults moduleIgnores)
+	var nReject, nNil, nFinal int
+	globalAt, scopedAt := map[ssa.Instruction]bool{}, map[ssa.Instruction]bool{}
+	// locate the global phase: the instruction of Contains through which moduleIgnores is consulted - the iterator call
+	// whose body reads it, or the call of a helper that does
 	var globalIterCall *ssa.Call
+	readsModule := func(f *ssa.Function) bool {
+		uses := false
+		for _, g := range P.StaticClosure(f) {
+			if g != f && P.isAnchor(g) {
+				continue
+			}
+			allInstrs(g, func(_ *ssa.BasicBlock, i2 ssa.Instruction) {
+				if fa, ok := i2.(*ssa.FieldAddr); ok && typeStr(deref(fa.X.Type())) == IS {
+					if deref(fa.X.Type()).Underlying().(*types.Struct).Field(fa.Field).Name() == "moduleIgnores" {
+						uses = true
+					}
+				}
+			})
+		}
+		return uses
+	}
 	allInstrs(fn, func(b *ssa.BasicBlock, ins ssa.Instruction) {
 		call, ok := ins.(*ssa.Call)
-		if !ok || len(call.Call.Args) != 1 {
+		if !ok || globalIterCall != nil {
 			return
 		}
-		mc, ok := call.Call.Args[0].(*ssa.MakeClosure)
-		if !ok {
-			return
-		}
-		uses := false
-		allInstrs(mc.Fn.(*ssa.Function), func(_ *ssa.BasicBlock, i2 ssa.Instruction) {
-			if fa, ok := i2.(*ssa.FieldAddr); ok && typeStr(deref(fa.X.Type())) == IS {
-				if deref(fa.X.Type()).Underlying().(*types.Struct).Field(fa.Field).Name() == "moduleIgnores" {
-					uses = true
-				}
+		if len(call.Call.Args) == 1 {
+			if mc, ok := call.Call.Args[0].(*ssa.MakeClosure); ok && readsModule(mc.Fn.(*ssa.Function)) {
+				globalIterCall = call
+				return
 			}
-		})
-		if uses && globalIterCall == nil {
+		}
+		if callee := call.Call.StaticCallee(); callee != nil && callee != fn && P.IsProductFunc(callee) && !P.isAnchor(callee) && readsModule(callee) {
 			globalIterCall = call
 		}
 	})
@@ -184,7 +252,11 @@ func (c *Ctx) ruleIgnoreSetContains() {
 						// index is not the range element of the index list
 					}
 				}
-				rangeOverAll := strings.Contains(marker, "[elem(") || strings.Contains(marker, "elem(lookup") || c.markerIndexIsRangeElem(o, fn)
+				viaRange, keyedByHier := c.markerIndexIsRangeElem(o, fn)
+				rangeOverAll := strings.Contains(marker, "[elem(") || strings.Contains(marker, "elem(lookup") || viaRange
+				if keyedByHier {
+					okIdx = true // `for _, i := range s.CodeIndex[<hierarchy element>]`: a missing key ranges over nothing
+				}
 				if geStart && leEnd && okMarker && okIdx && rangeOverAll {
 					isScoped = true
 				} else if whyNot == "" {
@@ -193,10 +265,10 @@ func (c *Ctx) ruleIgnoreSetContains() {
 			}
 			switch {
 			case isGlobal:
-				nTrueGlobal++
+				globalAt[o.At] = true
 				c.ok("IGNORESET/GLOBAL-MATCH", cons, where, "true iff some element of GetCodesForCheck(code) equals a global token (exact string equality)")
 			case isScoped:
-				nTrueScoped++
+				scopedAt[o.At] = true
 				c.ok("IGNORESET/CLOSED-INTERVAL", cons, where, "true iff StartPos <= pos <= EndPos for a marker indexed under an element of GetCodesForCheck(code)")
 			default:
 				c.fail("IGNORESET/OUTCOME", cons, where, "unrecognised `return true`: "+whyNot)
@@ -239,15 +311,17 @@ func (c *Ctx) ruleIgnoreSetContains() {
 			continue
 		}
 		rejectCut := blk.Parent() == fn && P.BlockCutBy(blk, func(l Lit) bool {
-			switch {
-			case l.Kind == "eq" && l.Pos && ((isFieldOf(P, l.X, IS, "MinPos") && isZeroPos(l.Y)) || (isFieldOf(P, l.Y, IS, "MinPos") && isZeroPos(l.X))):
-				return true // no marker at all
-			case l.Kind == "lt" && l.Pos && isPosParam(P, l.X, fn) && isFieldOf(P, l.Y, IS, "MinPos"):
-				return true // pos < MinPos (strict)
-			case l.Kind == "lt" && l.Pos && isFieldOf(P, l.X, IS, "MaxPos") && isPosParam(P, l.Y, fn):
-				return true // pos > MaxPos (strict)
-			}
-			return false
+			return litImplies(l, func(l Lit) bool {
+				switch {
+				case l.Kind == "eq" && l.Pos && ((isFieldOf(P, l.X, IS, "MinPos") && isZeroPos(l.Y)) || (isFieldOf(P, l.Y, IS, "MinPos") && isZeroPos(l.X))):
+					return true // no marker at all
+				case l.Kind == "lt" && l.Pos && isPosParam(P, l.X, fn) && isFieldOf(P, l.Y, IS, "MinPos"):
+					return true // pos < MinPos (strict)
+				case l.Kind == "lt" && l.Pos && isFieldOf(P, l.X, IS, "MaxPos") && isPosParam(P, l.Y, fn):
+					return true // pos > MaxPos (strict)
+				}
+				return false
+			})
 		})
 		if rejectCut {
 			nReject++
@@ -269,6 +343,7 @@ func (c *Ctx) ruleIgnoreSetContains() {
 		nFinal++
 		c.ok("IGNORESET/NO-MATCH", cons, where, "false after both phases found no match")
 	}
+	nTrueGlobal, nTrueScoped := len(globalAt), len(scopedAt)
 	c.check(nTrueGlobal == 1, "IGNORESET/SHAPE", name+"#global", P.Pos(fn.Pos()), "one global match outcome", fmt.Sprintf("%d global match outcomes (expected 1)", nTrueGlobal))
 	c.check(nTrueScoped == 1, "IGNORESET/SHAPE", name+"#scoped", P.Pos(fn.Pos()), "one scoped match outcome", fmt.Sprintf("%d scoped match outcomes (expected 1)", nTrueScoped))
 	c.check(nNil >= 1, "IGNORESET/SHAPE", name+"#nil", P.Pos(fn.Pos()), "nil/uninitialised outcome present", "no `false` outcome for nil / uninitialised sets")
@@ -281,9 +356,8 @@ func (c *Ctx) ruleIgnoreSetContains() {
 
 // markerIndexIsRangeElem: the marker of a scoped match is s.Markers[idx] with idx the element of a range loop
 // over the index list (every indexed marker is examined, in any order of insertion).
-func (c *Ctx) markerIndexIsRangeElem(o outcome, fn *ssa.Function) bool {
+func (c *Ctx) markerIndexIsRangeElem(o outcome, fn *ssa.Function) (ok bool, keyedByHier bool) {
 	P := c.P
-	ok := false
 	for _, l := range o.Guards {
 		if l.Kind != "lt" {
 			continue
@@ -310,6 +384,9 @@ func (c *Ctx) markerIndexIsRangeElem(o outcome, fn *ssa.Function) bool {
 						idd := P.Desc(ia.Index)
 						if strings.HasPrefix(idd, "elem(lookup(field(") && strings.Contains(idd, "util.IgnoreSet.CodeIndex)") {
 							idxOK = true
+							if strings.Contains(idd, "util.IgnoreSet.CodeIndex); iterelem0(call(codes.GetCodesForCheck; "+P.Desc(fn.Params[1])+"))") {
+								keyedByHier = true
+							}
 						}
 					}
 					if idxOK {
@@ -319,7 +396,7 @@ func (c *Ctx) markerIndexIsRangeElem(o outcome, fn *ssa.Function) bool {
 			}
 		}
 	}
-	return ok
+	return ok, keyedByHier
 }
 
 // markerLoads: the loads stored into the local marker cell.
@@ -328,12 +405,35 @@ func (c *Ctx) markerLoads(base ssa.Value) []*ssa.UnOp {
 	if cell := c.P.cellOf(base); cell != nil {
 		vals, _, _ := c.P.CellStores(cell)
 		for _, v := range vals {
-			if u, ok := v.(*ssa.UnOp); ok {
+			// the marker may have been handed to a helper by value
+			if u, ok := c.P.throughParams(v).(*ssa.UnOp); ok {
 				out = append(out, u)
 			}
 		}
 	}
 	return out
+}
+
+// litImplies: the literal guarantees pred - directly, or as a compound: a conjunction guarantees it if one
+// conjunct does, a disjunction if every disjunct does (not(and) / not(or) by De Morgan).
+func litImplies(l Lit, pred func(Lit) bool) bool {
+	if l.Kind != "and" && l.Kind != "or" {
+		return pred(l)
+	}
+	conj := (l.Kind == "and") == l.Pos
+	for _, s := range l.Subs {
+		if !l.Pos {
+			s.Pos = !s.Pos
+		}
+		ok := litImplies(s, pred)
+		if conj && ok {
+			return true
+		}
+		if !conj && !ok {
+			return false
+		}
+	}
+	return !conj && len(l.Subs) > 0
 }
 
 func isParamDesc(P *Program, d string, fn *ssa.Function, idx int) bool {
@@ -395,7 +495,14 @@ func (c *Ctx) ignoreSetBenign(l Lit, fn *ssa.Function) bool {
 func (c *Ctx) hierLoops(fn *ssa.Function) {
 	P := c.P
 	n := 0
-	for _, af := range fn.AnonFuncs {
+	// loops of Contains itself and of the helpers it delegates a phase to
+	var bodies []*ssa.Function
+	for _, f := range P.StaticClosure(fn) {
+		if f.Parent() == nil && (f == fn || !P.isAnchor(f)) {
+			bodies = append(bodies, f.AnonFuncs...)
+		}
+	}
+	for _, af := range bodies {
 		if af.Synthetic != "range-over-func yield" {
 			continue
 		}
@@ -470,78 +577,91 @@ func (c *Ctx) ruleIgnoreSetAdd() {
 	}
 	name := FuncName(add)
 	var sawMin, sawMax, sawMarkers, sawIndex bool
-	allInstrs(add, func(b *ssa.BasicBlock, ins ssa.Instruction) {
-		switch x := ins.(type) {
-		case *ssa.Store:
-			fa, ok := x.Addr.(*ssa.FieldAddr)
-			if !ok || typeStr(deref(fa.X.Type())) != IS {
-				return
-			}
-			f := deref(fa.X.Type()).Underlying().(*types.Struct).Field(fa.Field).Name()
-			where := P.Pos(x.Pos())
-			switch f {
-			case "MinPos":
-				okV := isFieldOf(P, x.Val, "util.IgnoreMarker", "StartPos") || strings.Contains(P.Desc(x.Val), "GetStartPos")
-				cut := P.BlockCutBy(b, func(l Lit) bool {
-					if l.Kind == "eq" && l.Pos && (isFieldOf(P, l.X, IS, "MinPos") || isFieldOf(P, l.Y, IS, "MinPos")) && (isZeroPos(l.X) || isZeroPos(l.Y)) {
-						return true
+	// Add and the helpers it hands part of the bookkeeping to, read in Add's calling context
+	pins, family := P.ContextPins(add)
+	var fams []*ssa.Function
+	for f := range family {
+		if f == add || (!P.isAnchor(f) && f.Parent() == nil) {
+			fams = append(fams, f)
+		}
+	}
+	sort.Slice(fams, func(i, j int) bool { return FuncName(fams[i]) < FuncName(fams[j]) })
+	P.PinnedAll(pins, func() {
+		for _, famFn := range fams {
+			allInstrs(famFn, func(b *ssa.BasicBlock, ins ssa.Instruction) {
+				switch x := ins.(type) {
+				case *ssa.Store:
+					fa, ok := x.Addr.(*ssa.FieldAddr)
+					if !ok || typeStr(deref(fa.X.Type())) != IS {
+						return
 					}
-					// StartPos < MinPos (or <=)
-					if l.Kind == "lt" && l.Pos && isFieldOf(P, l.Y, IS, "MinPos") && P.Desc(l.X) == P.Desc(x.Val) {
-						return true
+					f := deref(fa.X.Type()).Underlying().(*types.Struct).Field(fa.Field).Name()
+					where := P.Pos(x.Pos())
+					switch f {
+					case "MinPos":
+						okV := isFieldOf(P, x.Val, "util.IgnoreMarker", "StartPos") || strings.Contains(P.Desc(x.Val), "GetStartPos")
+						cut := P.BlockCutBy(b, func(l Lit) bool {
+							if l.Kind == "eq" && l.Pos && (isFieldOf(P, l.X, IS, "MinPos") || isFieldOf(P, l.Y, IS, "MinPos")) && (isZeroPos(l.X) || isZeroPos(l.Y)) {
+								return true
+							}
+							// StartPos < MinPos (or <=)
+							if l.Kind == "lt" && l.Pos && isFieldOf(P, l.Y, IS, "MinPos") && P.Desc(l.X) == P.Desc(x.Val) {
+								return true
+							}
+							if l.Kind == "lt" && !l.Pos && isFieldOf(P, l.X, IS, "MinPos") && P.Desc(l.Y) == P.Desc(x.Val) {
+								return true // !(MinPos < StartPos)  ==  StartPos <= MinPos
+							}
+							return false
+						})
+						sawMin = okV && cut
+						c.check(okV && cut, "IGNORESET/MINMAX", name+"#MinPos", where, "MinPos = marker.StartPos iff unset or StartPos < MinPos", "MinPos is not maintained as the minimum of the markers' start positions: "+short(P.Desc(x.Val)))
+					case "MaxPos":
+						okV := isFieldOf(P, x.Val, "util.IgnoreMarker", "EndPos") || strings.Contains(P.Desc(x.Val), "GetEndPos")
+						cut := P.BlockCutBy(b, func(l Lit) bool {
+							if l.Kind == "eq" && l.Pos && (isFieldOf(P, l.X, IS, "MaxPos") || isFieldOf(P, l.Y, IS, "MaxPos")) && (isZeroPos(l.X) || isZeroPos(l.Y)) {
+								return true
+							}
+							if l.Kind == "lt" && l.Pos && isFieldOf(P, l.X, IS, "MaxPos") && P.Desc(l.Y) == P.Desc(x.Val) {
+								return true // MaxPos < EndPos
+							}
+							if l.Kind == "lt" && !l.Pos && isFieldOf(P, l.Y, IS, "MaxPos") && P.Desc(l.X) == P.Desc(x.Val) {
+								return true
+							}
+							return false
+						})
+						sawMax = okV && cut
+						c.check(okV && cut, "IGNORESET/MINMAX", name+"#MaxPos", where, "MaxPos = marker.EndPos iff unset or EndPos > MaxPos", "MaxPos is not maintained as the maximum of the markers' end positions: "+short(P.Desc(x.Val)))
+					case "Markers":
+						d := P.Desc(x.Val)
+						sawMarkers = strings.HasPrefix(d, "call(builtin append; field(") && strings.Contains(d, "util.IgnoreSet.Markers)")
+						var extra []string
+						for _, l := range P.BlockGuards(b) {
+							if !nilCheck(l) {
+								extra = append(extra, short(l.String()))
+							}
+						}
+						c.check(sawMarkers && len(extra) == 0, "IGNORESET/INDEXED", name+"#Markers", where, "every marker is appended", "markers are not unconditionally appended to s.Markers: "+strings.Join(extra, "; "))
 					}
-					if l.Kind == "lt" && !l.Pos && isFieldOf(P, l.X, IS, "MinPos") && P.Desc(l.Y) == P.Desc(x.Val) {
-						return true // !(MinPos < StartPos)  ==  StartPos <= MinPos
+				case *ssa.MapUpdate:
+					if !isFieldOf(P, x.Map, IS, "CodeIndex") {
+						return
 					}
-					return false
-				})
-				sawMin = okV && cut
-				c.check(okV && cut, "IGNORESET/MINMAX", name+"#MinPos", where, "MinPos = marker.StartPos iff unset or StartPos < MinPos", "MinPos is not maintained as the minimum of the markers' start positions: "+short(P.Desc(x.Val)))
-			case "MaxPos":
-				okV := isFieldOf(P, x.Val, "util.IgnoreMarker", "EndPos") || strings.Contains(P.Desc(x.Val), "GetEndPos")
-				cut := P.BlockCutBy(b, func(l Lit) bool {
-					if l.Kind == "eq" && l.Pos && (isFieldOf(P, l.X, IS, "MaxPos") || isFieldOf(P, l.Y, IS, "MaxPos")) && (isZeroPos(l.X) || isZeroPos(l.Y)) {
-						return true
+					where := P.Pos(x.Pos())
+					kd := P.Desc(x.Key)
+					okKey := strings.HasPrefix(kd, "elem(") && (strings.Contains(kd, "util.IgnoreMarker.Codes") || strings.Contains(kd, "GetCodes"))
+					vd := P.Desc(x.Value)
+					okVal := strings.HasPrefix(vd, "call(builtin append; lookup(field(") && strings.Contains(vd, "lit[call(builtin len; field(") && strings.Contains(vd, "util.IgnoreSet.Markers))]")
+					onlyLoop := true
+					for _, l := range P.BlockGuards(b) {
+						if l.Kind != "rangeloop" && !nilCheck(l) {
+							onlyLoop = false
+						}
 					}
-					if l.Kind == "lt" && l.Pos && isFieldOf(P, l.X, IS, "MaxPos") && P.Desc(l.Y) == P.Desc(x.Val) {
-						return true // MaxPos < EndPos
-					}
-					if l.Kind == "lt" && !l.Pos && isFieldOf(P, l.Y, IS, "MaxPos") && P.Desc(l.X) == P.Desc(x.Val) {
-						return true
-					}
-					return false
-				})
-				sawMax = okV && cut
-				c.check(okV && cut, "IGNORESET/MINMAX", name+"#MaxPos", where, "MaxPos = marker.EndPos iff unset or EndPos > MaxPos", "MaxPos is not maintained as the maximum of the markers' end positions: "+short(P.Desc(x.Val)))
-			case "Markers":
-				d := P.Desc(x.Val)
-				sawMarkers = strings.HasPrefix(d, "call(builtin append; field(") && strings.Contains(d, "util.IgnoreSet.Markers)")
-				var extra []string
-				for _, l := range P.BlockGuards(b) {
-					if !nilCheck(l) {
-						extra = append(extra, short(l.String()))
-					}
+					sawIndex = okKey && okVal && onlyLoop
+					c.check(sawIndex, "IGNORESET/INDEXED", name+"#CodeIndex", where, "for every code of the marker: CodeIndex[code] = append(CodeIndex[code], index of the marker)",
+						fmt.Sprintf("the per-code index is not maintained for every code of every marker [key:%v value:%v unconditional:%v]", okKey, okVal, onlyLoop))
 				}
-				c.check(sawMarkers && len(extra) == 0, "IGNORESET/INDEXED", name+"#Markers", where, "every marker is appended", "markers are not unconditionally appended to s.Markers: "+strings.Join(extra, "; "))
-			}
-		case *ssa.MapUpdate:
-			if !isFieldOf(P, x.Map, IS, "CodeIndex") {
-				return
-			}
-			where := P.Pos(x.Pos())
-			kd := P.Desc(x.Key)
-			okKey := strings.HasPrefix(kd, "elem(") && (strings.Contains(kd, "util.IgnoreMarker.Codes") || strings.Contains(kd, "GetCodes"))
-			vd := P.Desc(x.Value)
-			okVal := strings.HasPrefix(vd, "call(builtin append; lookup(field(") && strings.Contains(vd, "lit[call(builtin len; field(") && strings.Contains(vd, "util.IgnoreSet.Markers))]")
-			onlyLoop := true
-			for _, l := range P.BlockGuards(b) {
-				if l.Kind != "rangeloop" && !nilCheck(l) {
-					onlyLoop = false
-				}
-			}
-			sawIndex = okKey && okVal && onlyLoop
-			c.check(sawIndex, "IGNORESET/INDEXED", name+"#CodeIndex", where, "for every code of the marker: CodeIndex[code] = append(CodeIndex[code], index of the marker)",
-				fmt.Sprintf("the per-code index is not maintained for every code of every marker [key:%v value:%v unconditional:%v]", okKey, okVal, onlyLoop))
+			})
 		}
 	})
 	c.check(sawMin && sawMax && sawMarkers && sawIndex, "IGNORESET/ADD-SHAPE", name, P.Pos(add.Pos()), "Add maintains Markers, CodeIndex, MinPos, MaxPos", "Add does not maintain all of Markers, CodeIndex, MinPos, MaxPos")
